@@ -12,7 +12,12 @@ TRUSTED_BASE = [
     "for the properties with a regenerated model (evidence key coverage.regenerated_model): the translator tools/rsparse.py + tools/rs2v.py (Rust subset -> Gallina; "
     "table-driven, anything unknown is an error), the primitive mappings of coq/GenPrelude.v and coq/GenTreePrelude.v (std str / String / Vec / Option / Result / Cow primitives, "
     "serde_json / toml maps as sorted association lists, Token::to_index as the hand-written index_from_str, Pointer::tokens() as a primitive), usize `+` as unbounded addition, "
-    "str::split_at's char-boundary panic not modelled; the equivalence lemmas coq/Proofs/GenEquiv*.v are re-checked by coqc on every run",
+    "str::split_at's char-boundary panic not modelled; the equivalence lemmas coq/Proofs/GenEquiv*.v are re-checked by coqc on every run; LENS MODE (the `&mut` walks of "
+    "src/assign.rs, src/delete.rs and resolve_mut as a reference, coq/Generated/ScanTreeMut.v): the lens primitives of coq/GenTreePrelude.v (lens_root / lens_arr / lens_obj / "
+    "lens_index / lens_get_mut / lens_entry / lens_set) as the meaning of `&mut doc`, a Value::Array / Object / Table pattern under a reference, `&mut a[i]`, Map::get_mut, Map::entry "
+    "(Occupied::into_mut / Vacant::insert) and of the writes mem::replace / Vec::push / Vec::remove / Map::remove / Map::insert through one; the translator's path-sensitive staleness "
+    "discipline (any use of a reference that may predate a write is a translation error); debug_assert! read with its debug-profile meaning; Pointer::assign / delete / resolve_mut "
+    "(one-line generic delegations) mapped to the backend impl of the same module",
     "platform facts assumed by the model: 64-bit usize; UTF-8 self-synchronisation (bytes < 0x80 never occur inside a multi-byte sequence); "
     "BTreeMap-backed serde_json::Map / toml::Table (no preserve_order); std str/String/Vec primitives behave as documented",
 ]
@@ -88,6 +93,12 @@ REGEN_TECHNIQUE = ("Coq 8.16 theorems over BOTH (a) a model REGENERATED on every
                    "the property is proved of the regenerated functions, via machine-checked equality with the hand-written model, for all inputs) AND (b) the hand-written executable "
                    "Gallina model tied to the code by the per-run differential correspondence check (model extracted to OCaml vs the real crate) + model-independent property oracles")
 
+LENS_NOTE = (" LENS MODE (DESIGN 13.8): the walks that mutate through `&mut` (assign_value / assign_array / assign_object / assign_scalar / Assign::assign, Delete::delete, "
+             "ResolveMut::resolve_mut, both backends) are re-translated too (coq/Generated/ScanTreeMut.v): a `&mut` reference into the document is the pair (content, write-back), "
+             "each function returns the document after its writes beside its result, and Proofs/GenEquivTreeMut.v proves them equal to the hand-written model for every real document "
+             "(BTreeMap keys sorted) and EVERY pointer text.")
+
+
 def regen_note(fns):
     return (" REGENERATED-MODEL TIE: " + fns + " are re-translated from /repo's current source into Gallina on every run (tools/rs2v.py) and the theorems of "
             "coq/Properties/<id>_src.v are re-proved of the regenerated definitions, for all inputs; an edit to one of these functions that breaks them breaks the proof stage even when "
@@ -109,9 +120,9 @@ PROPERTIES = {
         "rule": "suites token, parse, tokens, buf, slice, prefix, conv as for C03, C02, C04, C11, C12, C13, C18; non-trivial and distinct per suite as there",
     },
     "C05": {
-        "regen": {"groups": ["Tree", "Token", "PtrOps", "Slice", "Index"]},
+        "regen": {"groups": ["Tree", "Token", "PtrOps", "Slice", "Index", "TreeMut"]},
         "technique": REGEN_TECHNIQUE,
-        "level_suffix": regen_note("the four walks Resolve / ResolveMut for serde_json::Value and toml::Value, the helper parse_index, resolve::Error's accessors and Diagnostic::labels (src/resolve.rs); Token::to_index is the hand-written index_from_str"),
+        "level_suffix": regen_note("the four walks Resolve / ResolveMut for serde_json::Value and toml::Value, the helper parse_index, resolve::Error's accessors and Diagnostic::labels (src/resolve.rs); Token::to_index is the hand-written index_from_str") + LENS_NOTE + " For C05: resolve_mut returns a REFERENCE at the path resolve reports (C05_src_resolve_mut_is_reference).",
         "runs": [{"suite": "tree", "filter": tree_ops("R", "M", "N")}],
         "level_text": "Proved in Coq for every document, every valid pointer: the transliterated fuelled split_front walk equals spec_resolve, structural recursion on the token list (objects by the decoded token, arrays by a canonical "
                       "index < length), never Panic/OutOfFuel; the result carries the selector path of the node with get_at path D = Some v (that very node, not a copy); for every well-formed document every node is resolved by the "
@@ -120,9 +131,9 @@ PROPERTIES = {
         "rule": TREE_RULE + "; for C05 the resolve / resolve_mut / every-node cases",
     },
     "C06": {
-        "regen": {"groups": ["Tree", "Token", "PtrOps", "Slice", "Index"]},
-        "technique": REGEN_TECHNIQUE + " (the regenerated part is `expand`; assign_value / assign_array / assign_object / assign_scalar mutate through &mut and are modelled by hand)",
-        "level_suffix": regen_note("json::expand and toml::expand (src/assign.rs): which tokens materialise an array, which an object keyed by the DECODED token"),
+        "regen": {"groups": ["Tree", "Token", "PtrOps", "Slice", "Index", "TreeMut"]},
+        "technique": REGEN_TECHNIQUE + " (regenerated: `expand` and, in lens mode, the whole assign walk: assign_value / assign_array / assign_object / assign_scalar / Assign::assign of both backends)",
+        "level_suffix": regen_note("json::expand and toml::expand (src/assign.rs): which tokens materialise an array, which an object keyed by the DECODED token") + LENS_NOTE + " For C06: C06_src_assign_is_model / C06_src_assign_follows_rules -- the source's assign IS the rule table spec_assign on every valid pointer.",
         "runs": [{"suite": "tree", "filter": tree_ops("A")}],
         "level_text": "Proved in Coq for every document, valid pointer and value: assign = spec_assign on the token list and expand (a fold from the back via split_back) = materialise (recursion from the front); one theorem per clause "
                       "(root, existing element/member, append at length or '-', missing member, scalar in the path, the two errors) and the iff 'the only failures are a non-index token or an index > length on an existing array'; "
@@ -130,9 +141,9 @@ PROPERTIES = {
         "rule": TREE_RULE + "; for C06 the assign cases",
     },
     "C07": {
-        "regen": {"groups": ["Tree", "Token", "PtrOps", "Slice", "Index"]},
-        "technique": REGEN_TECHNIQUE + " (the assign walk itself mutates through &mut Value: hand-written model + differential tie; regenerated: resolve, for_len_incl, expand)",
-        "level_suffix": regen_note("what the laws are read with and what assign decides with: the resolve walks, Index::for_len_incl, expand (src/resolve.rs, src/index.rs, src/assign.rs)"),
+        "regen": {"groups": ["Tree", "Token", "PtrOps", "Slice", "Index", "TreeMut"]},
+        "technique": REGEN_TECHNIQUE + " (regenerated: resolve, for_len_incl, expand and, in lens mode, the assign walk itself)",
+        "level_suffix": regen_note("what the laws are read with and what assign decides with: the resolve walks, Index::for_len_incl, expand (src/resolve.rs, src/index.rs, src/assign.rs)") + LENS_NOTE + " For C07: C07_src_atomic_on_error (a failed assign of the source hands back the document it was given) and C07_src_assign_is_spec (every law proved of spec_assign is a law of the source).",
         "runs": [{"suite": "tree", "filter": tree_ops("A")}],
         "level_text": "Proved in Coq on spec_assign and transported to the model through C06's equality: atomic on error (document unchanged; needs the BTreeMap invariant because the functional model rebuilds the spine), read-your-write "
                       "(with '-' read as the new last index; plain resolve for dash-free pointers), frame (every location neither a token-prefix of p nor below p keeps its value and node), replaced = what resolved before / None "
@@ -140,9 +151,9 @@ PROPERTIES = {
         "rule": TREE_RULE + "; for C07 the assign cases, each followed by the law checks (resolve after assign, every old path compared, assign twice)",
     },
     "C08": {
-        "regen": {"groups": ["Tree", "Token", "PtrOps", "Slice", "Index"]},
-        "technique": REGEN_TECHNIQUE + " (delete itself mutates through &mut Value: hand-written model + differential tie; regenerated: split_back, the resolve_mut parent walk, Index::from_str, for_len, decoded)",
-        "level_suffix": regen_note("every decision delete takes: Pointer::split_back, the resolve_mut parent walk on both backends, Index::from_str, the exclusive bound check Index::for_len, Token::decoded"),
+        "regen": {"groups": ["Tree", "Token", "PtrOps", "Slice", "Index", "TreeMut"]},
+        "technique": REGEN_TECHNIQUE + " (regenerated: split_back, the resolve_mut parent walk, Index::from_str, for_len, decoded and, in lens mode, Delete::delete itself on both backends)",
+        "level_suffix": regen_note("every decision delete takes: Pointer::split_back, the resolve_mut parent walk on both backends, Index::from_str, the exclusive bound check Index::for_len, Token::decoded") + LENS_NOTE + " For C08: C08_src_delete_is_model / C08_src_delete_refines -- the source's delete removes exactly the node resolve finds or changes nothing; C08_src_parent_reference -- the parent is reached by reference.",
         "runs": [{"suite": "tree", "filter": tree_ops("D")}],
         "level_text": "Proved in Coq: delete = spec_delete, never Panic (the model's Vec::remove panics when idx >= len, so with for_len_incl this is false and with for_len provable); returns Some v iff the pointer resolves (to v); "
                       "None leaves the document unchanged; on success exactly that member is removed (lookup None, other members and unrelated locations unchanged) or that element removed with successors shifted down by one "
@@ -150,8 +161,8 @@ PROPERTIES = {
         "rule": TREE_RULE + "; for C08 the delete cases",
     },
     "C09": {
-        "regen": {"groups": ["Tree", "Token", "PtrOps", "Slice", "Index"]},
-        "technique": REGEN_TECHNIQUE + " (assign / delete: hand-written model + per-copy differential tie only)",
+        "regen": {"groups": ["Tree", "Token", "PtrOps", "Slice", "Index", "TreeMut"]},
+        "technique": REGEN_TECHNIQUE + " (assign / delete of both backends: regenerated in lens mode and proved equal to ONE model, hence to each other, in Proofs/GenEquivTreeMut.v; the C09_src theorems are about the resolve copies)",
         "level_suffix": regen_note("the json and toml copies of resolve and resolve_mut (src/resolve.rs): the four regenerated walks are proved to agree on every document and pointer; json / toml expand (src/assign.rs)"),
         "runs": [{"suite": "tree"}, {"suite": "hist"}],
         "level_text": "MOSTLY TIE (DESIGN 6/C09): the model has one transliteration per walk over a common value type, so backend agreement is true by construction there; the assurance is that EACH of the eight Rust functions "
@@ -160,9 +171,9 @@ PROPERTIES = {
         "rule": TREE_RULE + "; every json case in the common domain is also run on toml::Value and vice versa and compared",
     },
     "C10": {
-        "regen": {"groups": ["Tree", "Token", "PtrOps", "Slice", "Index"]},
-        "technique": REGEN_TECHNIQUE + " (assign / delete steps: hand-written model + differential tie; regenerated: the four resolve walks incl. their error values and labels, expand)",
-        "level_suffix": regen_note("the reading steps of a history (the four resolve / resolve_mut walks, their error values and labels) and expand"),
+        "regen": {"groups": ["Tree", "Token", "PtrOps", "Slice", "Index", "TreeMut"]},
+        "technique": REGEN_TECHNIQUE + " (regenerated: every step of a history -- the four resolve walks incl. their error values and labels, expand, and in lens mode assign, delete and the write through resolve_mut)",
+        "level_suffix": regen_note("the reading steps of a history (the four resolve / resolve_mut walks, their error values and labels) and expand") + LENS_NOTE + " For C10: C10_src_history_refines -- the fold of the REGENERATED assign / delete / resolve / write-through over any history of valid operations from a real document equals the reference tree store (document and every returned value), and never panics.",
         "runs": [{"suite": "hist"}],
         "level_text": "Proved in Coq by induction over the history from the single-step equalities: for every initial document and every finite list of assign / delete / resolve / write-through operations with valid pointers, "
                       "folding the transliterated walks equals folding the reference tree (documents and every returned value), never Panic; the map invariant is preserved and in every reached document every node is resolved by "
@@ -171,7 +182,7 @@ PROPERTIES = {
                 "every-node sweep; seeded random histories up to 16 steps over random documents; non-trivial = at least two steps; distinct = distinct case lines",
     },
     "C15": {
-        "regen": {"groups": ["Tree", "Token", "PtrOps", "Slice", "Index"]},
+        "regen": {"groups": ["Tree", "Token", "PtrOps", "Slice", "Index", "TreeMut"]},
         "technique": REGEN_TECHNIQUE,
         "level_suffix": regen_note("the offset / position accessors and Diagnostic::labels of resolve::Error and assign::Error, and the four resolve walks that produce the positions (src/resolve.rs, src/assign.rs)"),
         "runs": [{"suite": "tree", "filter": tree_ops("R", "M", "A", "W")}],
